@@ -347,8 +347,10 @@ class Alphabet:
             return []
         out = []
         # every built-in name, each with a body that cannot be read as ordinary LaTeX without showing
-        for vname, body in (('Verbatim', ' $ '), ('listing', '\\' + self.N.x + '{'), ('verbatim', 'a}\n%c\n'),
-                            ('lstlisting', '\n'), ('verbatimtab', '$' + self.N.a), ('verbatim', '\\' + self.N.x + ' {')):
+        # (two bodies also quote a closer whose name merely starts with the environment's own name)
+        for vname, body in (('Verbatim', ' $ '), ('listing', '\\end{listings}\\' + self.N.x + '{'), ('verbatim', 'a}\n%c\n'),
+                            ('lstlisting', '\n'), ('verbatimtab', '$' + self.N.a),
+                            ('verbatim', '\\end{verbatimtab}\\' + self.N.x + ' {')):
             out.append(('\\begin{%s}%s\\end{%s}' % (vname, body, vname),
                         (('E', vname, (), (('T', body),)),), 'env'))
         return out
